@@ -31,6 +31,17 @@ theorem c18_total_tryFrom (bs : Bytes) : tryFromPrefixed bs ≠ .panic := by
 theorem c18_encode_decode (es : List Entry) (h : EntriesOk es) : fromBytes (toBytes es) = .ok es :=
   fromBytesAux_toBytes .checked es h _ (Nat.le_refl _)
 
+/-- lossless ⇒ unambiguous: two well-formed record lists with the same encoding are the same list
+    (no two different TLV streams of the plugin's own making can be confused on the wire). -/
+theorem c18_encode_injective (a b : List Entry) (ha : EntriesOk a) (hb : EntriesOk b)
+    (h : toBytes a = toBytes b) : a = b := by
+  have h1 := c18_encode_decode a ha
+  have h2 := c18_encode_decode b hb
+  rw [h] at h1
+  rw [h1] at h2
+  cases h2
+  rfl
+
 /-- decode ∘ encode: on every valid BOLT TLV stream the decoder returns exactly the records the
     strict reference decoder sees, and re-encoding them reproduces the input byte for byte. -/
 theorem c18_decode_encode (bs : Bytes) (es : List Entry) (h : strictDecode bs = some es) :
